@@ -8,6 +8,7 @@ import (
 	"context"
 	"encoding/json"
 	"fmt"
+	"log/slog"
 	"net"
 	"net/http"
 	"net/http/httptest"
@@ -16,6 +17,7 @@ import (
 	"path/filepath"
 	"sort"
 	"strings"
+	"sync"
 	"sync/atomic"
 	"testing"
 	"time"
@@ -77,6 +79,25 @@ func (d *c08DHCP) HostByIP(netip.Addr) string { return "" }
 func (d *c08DHCP) MACByIP(ip netip.Addr) net.HardwareAddr {
 	if m, ok := d.tbl[ip]; ok {
 		return m
+	}
+	return nil
+}
+
+// c08StartWatch is a log handler that tells when the start-up rotation check of
+// the query log (a goroutine of Start) is over: every path of checkAndRotate
+// ends with one of these messages.
+type c08StartWatch struct {
+	once sync.Once
+	done chan struct{}
+}
+
+func (h *c08StartWatch) Enabled(context.Context, slog.Level) bool { return true }
+func (h *c08StartWatch) WithAttrs([]slog.Attr) slog.Handler       { return h }
+func (h *c08StartWatch) WithGroup(string) slog.Handler            { return h }
+func (h *c08StartWatch) Handle(_ context.Context, r slog.Record) error {
+	switch r.Message {
+	case "reading oldest record for rotation", "not rotating", "rotating", "rotated successfully":
+		h.once.Do(func() { close(h.done) })
 	}
 	return nil
 }
@@ -423,8 +444,9 @@ func c08New(t *testing.T, base string, n int, anon, refuse bool, qRules, sRules 
 		t.Fatal(err)
 	}
 	reg := func(method, url string, h http.HandlerFunc) { sc.handlers[method+" "+url] = h }
+	watch := &c08StartWatch{done: make(chan struct{})}
 	sc.ql, err = querylog.New(querylog.Config{
-		Logger: slogutil.NewDiscardLogger(), Ignored: sc.qEngine, Anonymizer: sc.mut, ConfigModified: func() {},
+		Logger: slog.New(watch), Ignored: sc.qEngine, Anonymizer: sc.mut, ConfigModified: func() {},
 		HTTPRegister: reg, FindClient: sc.findMultiple, BaseDir: dir, RotationIvl: timeutil.Day, MemSize: 1000,
 		Enabled: true, FileEnabled: true, AnonymizeClientIP: anon})
 	if err != nil {
@@ -439,6 +461,15 @@ func c08New(t *testing.T, base string, n int, anon, refuse bool, qRules, sRules 
 		t.Fatal(err)
 	}
 	_ = sc.ql.Start(context.Background())
+	// ... and the scenario starts only after that check is over: it takes a
+	// MISSING querylog.json (as after a rotation of the scenario) for an
+	// infinitely old one and would rename the next flushed file whenever the
+	// scheduler lets it run
+	select {
+	case <-watch.done:
+	case <-time.After(2 * time.Minute):
+		t.Fatalf("the start-up rotation check of the query log did not finish")
+	}
 	sc.st, err = stats.New(stats.Config{
 		Logger: slogutil.NewDiscardLogger(), ConfigModified: func() {}, ShouldCountClient: sc.shouldCountClient,
 		HTTPRegister: reg, Ignored: sc.sEngine, Filename: filepath.Join(dir, "stats.db"), Limit: timeutil.Day, Enabled: true,
@@ -446,7 +477,10 @@ func c08New(t *testing.T, base string, n int, anon, refuse bool, qRules, sRules 
 	if err != nil {
 		t.Fatal(err)
 	}
-	sc.st.Start()
+	// the handlers without the periodic flush goroutine: roll() runs its
+	// iterations at chosen points (a second, concurrent flusher would race on the
+	// unit id that flush reads before taking the locks)
+	stats.VerifStartWithoutFlusher(sc.st)
 	sc.srv = &Server{baseLogger: slogutil.NewDiscardLogger(), queryLog: sc.ql, stats: sc.st, anonymizer: sc.mut}
 	sc.srv.conf.RefuseAny = refuse
 	sc.head = vfBool(anon) + " " + vfBool(refuse) + " " + c08NamesCoq() + " " + c08RulesCoq(qRules) + " " + c08Table(sc.qEngine) +
